@@ -3,3 +3,5 @@ pub mod net_exec;
 pub mod net_inject;
 pub mod netconn;
 pub mod netgen;
+pub mod snapxfer;
+pub mod snapsync;
